@@ -3,7 +3,7 @@
    rest, no lexer error — for every tree whose names are plain identifiers that no literal rule claims. *)
 From Coq Require Import Lia.
 From Verif Require Import Base.Str Base.Outcome Model.Ast Model.Token Gen.Keywords Model.Lexer Model.Parser Spec.Sem Spec.Normalize
-  Proofs.ListenerSem Proofs.ParserComplete Proofs.LexInversion.
+  Proofs.ListenerSem Proofs.ParserComplete Proofs.LexInversion Proofs.LexEof.
 
 Definition std_text (k : tkind) : str :=
   match k with
@@ -43,7 +43,8 @@ Proof.
 Qed.
 
 (* what follows a token *)
-Definition delim_next (rest : str) : Prop := match rest with d :: _ => is_delim d = true | [] => False end.
+(* a name may also stand at the very end of the input (Proofs/LexEof.v) *)
+Definition delim_next (rest : str) : Prop := match rest with d :: _ => is_delim d = true | [] => True end.
 Definition solid_next (rest : str) : Prop := match rest with c :: _ => is_nlish c = false | [] => False end.
 
 Lemma recs_app a b rest : recs (a ++ b) rest <-> recs a (concat (map snd b) ++ rest) /\ recs b rest.
@@ -90,7 +91,7 @@ Proof. destruct x. cbn. tauto. Qed.
 
 Lemma rec_name' t rest : name_ok t -> delim_next rest -> rec_at (fst (kt_of t)) (snd (kt_of t)) rest.
 Proof.
-  intros H Hd. destruct (kt_name t H) as [E Hp]. rewrite E. cbn [fst snd]. destruct rest as [|d rest]; [contradiction|]. apply rec_name; assumption.
+  intros H Hd. destruct (kt_name t H) as [E Hp]. rewrite E. cbn [fst snd]. destruct rest as [|d rest]; [apply rec_name_eof; exact Hp|]. apply rec_name; assumption.
 Qed.
 Lemma rec_blank' rest : solid_next rest -> rec_at WHITESPACE (lit " ") rest.
 Proof. destruct rest as [|c rest]; [contradiction|]. apply rec_blank. Qed.
@@ -106,7 +107,7 @@ Proof.
 Qed.
 
 Lemma delim_blank rest : blank_next rest -> delim_next rest.
-Proof. destruct rest as [|c r]; [tauto|]. cbn. intros ->. reflexivity. Qed.
+Proof. destruct rest as [|c r]; [intros []|]. cbn. intros ->. reflexivity. Qed.
 
 (* ---- a type restriction ---- *)
 Lemma restr_text_solid r rest : restr_lex_ok r -> solid_next (text_of (toks_restr r) ++ rest).
@@ -127,7 +128,7 @@ Proof.
     - apply rec_blank'. reflexivity.
     - apply (rec_kw KEYWORD_WITH); [cbn; tauto|reflexivity].
     - apply rec_blank'. rewrite app_nil_r. apply name_solid. exact Hpc.
-    - destruct rest as [|d rest']; [contradiction|]. apply rec_name; assumption. }
+    - destruct rest as [|d rest']; [apply rec_name_eof; exact Hpc|]. apply rec_name; assumption. }
   destruct Hcond as [Rc Dc].
   set (cp := match rs_cond r with Some c => [mk WHITESPACE; mk KEYWORD_WITH; mk WHITESPACE; c] | None => [] end) in *.
   change (kts (rs_type r :: (match rs_kind r with RKWild => [mk COLON; mk STAR] | RKRel t => [mk HASH; t] | RKPlain => [] end) ++ cp))
@@ -208,10 +209,10 @@ Proof.
         -- apply rec_blank'. reflexivity.
         -- apply (rec_kw FROM); [cbn; tauto|reflexivity].
         -- apply rec_blank'. rewrite app_nil_r. apply name_solid. exact Hpt.
-        -- destruct tail as [|d tail']; [contradiction|]. apply rec_name; assumption.
+        -- destruct tail as [|d tail']; [apply rec_name_eof; exact Hpt|]. apply rec_name; assumption.
       * rewrite text_of_cons, Ecu. cbn [snd]. rewrite <- app_assoc. apply name_solid. exact Hpcu.
     + destruct (kt_name cu Hcu) as [Ecu Hpcu]. split.
-      * cbn [kts map]. rewrite Ecu. apply recs_one. destruct tail as [|d tail']; [contradiction|]. apply rec_name; assumption.
+      * cbn [kts map]. rewrite Ecu. apply recs_one. destruct tail as [|d tail']; [apply rec_name_eof; exact Hpcu|]. apply rec_name; assumption.
       * rewrite text_of_cons, Ecu. cbn [snd]. rewrite <- app_assoc. apply name_solid. exact Hpcu.
   - destruct (proj1 (lex_ok_group _ _ _ _) Hok) as (Hf & Hr & Hop). rewrite toks_elem_group. split; [|reflexivity].
     unfold toks_def. change (mk LPAREN :: (toks_elem first ++ toks_partials op rest) ++ [mk RPAREN])
